@@ -636,7 +636,12 @@ func assignedVars(info *types.Info, n ast.Node) []types.Object {
 				e = y.X
 				continue
 			case *ast.SelectorExpr:
-				// assignment to a field of a value struct modifies the root variable
+				// assignment to a field of a value struct modifies the root variable; through a pointer it goes to the heap
+				if tv, ok := info.Types[y.X]; ok && tv.Type != nil {
+					if _, isPtr := types.Unalias(tv.Type).Underlying().(*types.Pointer); isPtr {
+						return
+					}
+				}
 				e = y.X
 				continue
 			case *ast.IndexExpr:
